@@ -2,6 +2,8 @@
    Executable definitions only (no proofs), so the model still evaluates when a proof breaks. *)
 From Coq Require Export ZArith Bool String Ascii List.
 Export ListNotations.
+Open Scope string_scope.
+Open Scope list_scope.
 Open Scope Z_scope.
 
 (* ---- outcomes: a Python call either returns a value or raises ------------------------- *)
